@@ -143,7 +143,13 @@ type Interp struct {
 	model     map[string]*big.Int // a model of the current PC, or nil
 	makeLimit int
 	curFn     *ssa.Function // function whose intrinsic is being evaluated
+	ts        threadState
+	mlocks    map[string]*lockState
+	condGen   map[string]int
+	wgCount   map[string]int
 }
+
+var stringType = types.Typ[types.String]
 
 func (in *Interp) unsupported(msg string) pathEnd {
 	where := ""
@@ -861,6 +867,9 @@ func (in *Interp) instr(fr *Frame, ins ssa.Instruction) {
 		in.goCalls = append(in.goCalls, nm)
 		if h, ok := goHandlers[nm]; ok {
 			h(in, fr, x)
+		} else if in.ts.on {
+			fv2, args := in.prepareCall(fr, &x.Call)
+			in.goStmt(fv2, args, nm)
 		}
 	case *ssa.FieldAddr:
 		p := in.get(fr, x.X).(Pointer)
